@@ -1,5 +1,7 @@
-//! module `sector` (serves C05, C18) — the Sector and Arc primitives (geometry only: `points()`,
-//! `contains()`, `bounding_box()`; styled sectors / arcs are not covered here).
+//! module `sector` (serves C05, C18: geometry; C01, C02, C07: styled arcs and sectors) — the Sector
+//! and Arc primitives: `points()`, `contains()`, `bounding_box()` (streams `sector.points`,
+//! `sector.arc`) and `Styled<Arc | Sector, PrimitiveStyle>` (streams `sector.sarc`, `sector.ssector`,
+//! described at the end of this header).
 //!
 //! Streams (op lines; every result line is compared with the Lean model `EG.Model.Sector`):
 //!   sector.points x y d start_mdeg sweep_mdeg tag lx ly rx ry
@@ -53,11 +55,34 @@
 //!   `sector:tol-needed-milli-px` in the distribution is the largest distance (in 1/1000 px) from
 //!   the nearer boundary ray of any pixel whose membership differs from "inside the sweep" — the
 //!   smallest tolerance with which the run would still pass.
+//!
+//! Styled arcs and sectors (emitted only for C01, C02, C07; models `EG.Model.StyledArc`,
+//! `EG.Model.StyledSector`):
+//!   sector.sarc    x y d start_mdeg sweep_mdeg tag lx ly rx ry fill stroke width align tbx tby tbw tbh dx dy
+//!   sector.ssector x y d start_mdeg sweep_mdeg tag lx ly rx ry bk bnx bny fill stroke width align tbx tby tbw tbh dx dy
+//!       -> ps=<plane sector as the hook reports it now> [bv=<bk,bnx,bny,origin distance as the hook reports them now>]
+//!          bb=<styled bounding box> log=<call log of draw() on R2 (native fills); `di:=px` when it is exactly one
+//!          draw_iter call with the pixel sequence of px=> m=<final map of draw() on R1 with target box tb; `=px` when its
+//!          text equals that of px=> r2eq=<R2 map == R1 map> px=<pixels() sequence in iteration order>
+//!          bbd=<styled bounding box of the shape translated by (dx, dy)> sh=<draw() of the translated shape on an
+//!          unbounded target == the shifted picture of the original>
+//!   `fill stroke width align` as in shapes.rs; `tag lx ly rx ry` = the plane sector (as above); `bk bnx bny` = the bevel
+//!   of the radial-line join of a styled sector, the only other value of sector/styled.rs that comes out of
+//!   trigonometry: kind (0 none, 1 interior, 2 exterior; decided by `Angle` comparisons) and the normal vector of the
+//!   bevel line (`OriginLinearEquation::with_angle`), read from the REAL iterator by the generator through the hook
+//!   `StyledPixelsIterator::verif_bevel` (cfg `embedded_graphics_verif`). The origin distance of the bevel line is integer
+//!   code: the model computes it, `bv=` compares it. arc/styled.rs needs nothing beyond the plane sector.
+//!   Oracles (predicates copied from m_styled.rs; Lean statements mirrored: `EG.C01.Arc`, `EG.C02.Arc`, `EG.C07.Arc`):
+//!   C01 draw() on R1 == draw() on R2 == pixels() fed to draw_iter (same target box);
+//!   C02 every pixel drawn on an unbounded target lies inside `bounding_box()`; a transparent style draws nothing;
+//!   C07 draw() of the translated shape (translate and translate_mut) == the shifted picture, styled bounding box shifted.
 use crate::common::*;
+use crate::shapes::{parse_style, Style};
 use embedded_graphics::{
     geometry::Angle,
+    pixelcolor::Rgb565,
     prelude::*,
-    primitives::{Arc, Circle, ContainsPoint, OffsetOutline, Sector},
+    primitives::{Arc, Circle, ContainsPoint, OffsetOutline, Rectangle, Sector, Styled},
     verif_hooks,
 };
 
@@ -279,6 +304,357 @@ fn count_shape(ctx: &mut Ctx, kind: &str, a: &Args, ps: (u8, [i32; 2], [i32; 2])
     }
 }
 
+// ---------------------------------------------------------------------------------------------
+// Styled arcs and sectors (C01, C02, C07).
+// ---------------------------------------------------------------------------------------------
+
+/// `bk bnx bny origin_distance` of the styled sector, from the real iterator.
+fn bevel_hook(tl: Point, d: u32, start: i32, sweep: i32, style: &Style) -> (u8, [i32; 2], i32) {
+    Styled::new(Sector::new(tl, d, mdeg(start), mdeg(sweep)), *style).pixels().verif_bevel()
+}
+
+fn parse_style_str(st: &str) -> Style {
+    parse_style(&mut Toks::new(st))
+}
+
+/// op line of a styled arc (`kind` = "sarc") or sector ("ssector"); `st` = the four style tokens.
+#[allow(clippy::too_many_arguments)]
+fn styled_op_line(kind: &str, x: i64, y: i64, d: i64, start: i64, sweep: i64, st: &str, tb: (i64, i64, i64, i64), dd: (i64, i64)) -> String {
+    let mut s = op_line(kind, x, y, d, start, sweep);
+    if kind == "ssector" {
+        let style = parse_style_str(st);
+        let (bk, bn, _) = bevel_hook(Point::new(x as i32, y as i32), d as u32, start as i32, sweep as i32, &style);
+        s.push_str(&format!(" {} {} {}", bk, bn[0], bn[1]));
+    }
+    s.push_str(&format!(" {} {} {} {} {} {} {}", st, tb.0, tb.1, tb.2, tb.3, dd.0, dd.1));
+    s
+}
+
+type PxSeq = Vec<((i32, i32), u32)>;
+
+/// What the styled streams observe of one styled shape on the real code.
+struct StyledObs {
+    m1: PMap,       // draw() on R1 (draw_iter only), target box tb
+    m2: PMap,       // draw() on R2 (native fills), target box tb
+    log2: Vec<Call>, // call log of R2
+    mp: PMap,       // pixels() fed to draw_iter of an R1 with box tb
+    px: PxSeq,      // pixels() in iteration order
+    mu: PMap,       // draw() on an unbounded R1
+    md: PMap,       // draw() of `translate(dd)` on an unbounded R1
+    mm: PMap,       // draw() after `translate_mut(dd)` on an unbounded R1
+    bb: Rectangle,  // styled bounding box
+    bbd: Rectangle, // ... of the translated shape
+    bbm: Rectangle, // ... after translate_mut
+}
+
+macro_rules! observe_styled {
+    ($prim:expr, $style:expr, $tb:expr, $dd:expr) => {{
+        let s = Styled::new($prim, $style);
+        let mut r1 = R1::<Rgb565>::new($tb);
+        s.draw(&mut r1).unwrap();
+        let mut r2 = R2::<Rgb565>::new($tb);
+        s.draw(&mut r2).unwrap();
+        let mut rp = R1::<Rgb565>::new($tb);
+        rp.draw_iter(s.pixels()).unwrap();
+        let px: PxSeq = s.pixels().map(|Pixel(p, c)| ((p.x, p.y), c.num())).collect();
+        let mut ru = R1::<Rgb565>::unbounded();
+        s.draw(&mut ru).unwrap();
+        let sd = s.translate($dd);
+        let mut sm = s.clone();
+        sm.translate_mut($dd);
+        let mut rd = R1::<Rgb565>::unbounded();
+        sd.draw(&mut rd).unwrap();
+        let mut rm = R1::<Rgb565>::unbounded();
+        sm.draw(&mut rm).unwrap();
+        StyledObs {
+            m1: r1.rec.map,
+            m2: r2.rec.map,
+            log2: r2.rec.log,
+            mp: rp.rec.map,
+            px,
+            mu: ru.rec.map,
+            md: rd.rec.map,
+            mm: rm.rec.map,
+            bb: s.bounding_box(),
+            bbd: sd.bounding_box(),
+            bbm: sm.bounding_box(),
+        }
+    }};
+}
+
+fn fmt_px(px: &PxSeq) -> String {
+    if px.is_empty() {
+        return "-".into();
+    }
+    let mut s = String::new();
+    for (i, ((x, y), c)) in px.iter().enumerate() {
+        if i > 0 {
+            s.push(';');
+        }
+        s.push_str(&format!("{},{},{}", x, y, c));
+    }
+    s
+}
+
+fn fmt_call_log(log: &[Call]) -> String {
+    if log.is_empty() {
+        return "-".into();
+    }
+    log.iter().map(|c| c.fmt()).collect::<Vec<_>>().join("|")
+}
+
+/// The C01 / C02 / C07 oracles (predicate logic of m_styled.rs) and the result text after `ps=`/`bv=`.
+fn styled_report(ctx: &mut Ctx, op: &str, kind: &str, o: &StyledObs, style: &Style, tb: Rectangle, dd: Point) -> String {
+    let transparent = style.fill_color.is_none() && (style.stroke_color.is_none() || style.stroke_width == 0);
+    ctx.count(&format!(
+        "{}:colours:{}{}",
+        kind,
+        if style.fill_color.is_some() { "fill" } else { "-" },
+        if style.stroke_color.is_some() { "+stroke" } else { "" }
+    ));
+    ctx.count(&format!("{}:width{}", kind, match style.stroke_width { 0 => "=0", 1 => "=1", 2..=3 => "<=3", _ => ">3" }));
+    ctx.count(&format!("{}:align:{:?}", kind, style.stroke_alignment));
+    if tb.is_zero_sized() {
+        ctx.count(&format!("{}:empty-target", kind));
+    } else if tb.size.width < 100 {
+        ctx.count(&format!("{}:clipping-target", kind));
+    }
+    if dd != Point::zero() {
+        ctx.count(&format!("{}:translated", kind));
+    }
+    if transparent {
+        ctx.count(&format!("{}:transparent", kind));
+    }
+    let nontrivial = match ctx.pid.as_str() {
+        "C01" => !o.m1.is_empty(),
+        "C02" => !o.mu.is_empty() || transparent,
+        "C07" => !o.mu.is_empty() && dd != Point::zero(),
+        _ => !o.mu.is_empty(),
+    };
+    if nontrivial {
+        ctx.nontrivial(op);
+    }
+    // C01: one image whichever drawing path the target offers
+    ctx.expect(o.m1 == o.m2, &format!("C01:native-vs-default:{}", kind), || format!("R1 {} px, R2 {} px", o.m1.len(), o.m2.len()));
+    ctx.expect(o.m1 == o.mp, &format!("C01:pixels-vs-draw:{}", kind), || {
+        let only_draw = o.m1.iter().filter(|(k, v)| o.mp.get(k) != Some(v)).count();
+        let only_px = o.mp.iter().filter(|(k, v)| o.m1.get(k) != Some(v)).count();
+        format!("draw() {} px, pixels() {} px, {} only/different in draw, {} only/different in pixels", o.m1.len(), o.mp.len(), only_draw, only_px)
+    });
+    // C02: everything drawn lies inside bounding_box(); a transparent style draws nothing
+    let out: Vec<_> = o.mu.keys().filter(|(y, x)| !o.bb.contains(Point::new(*x, *y))).collect();
+    ctx.expect(out.is_empty(), &format!("C02:outside-bbox:{}", kind), || {
+        format!("{} of {} px outside bounding_box {} e.g. ({},{})", out.len(), o.mu.len(), fmt_rect(&o.bb), out[0].1, out[0].0)
+    });
+    let out_px = o.px.iter().filter(|((x, y), _)| !o.bb.contains(Point::new(*x, *y))).count();
+    ctx.expect(out_px == 0, &format!("C02:pixels-outside-bbox:{}", kind), || format!("{} of {} pixels() items outside bounding_box {}", out_px, o.px.len(), fmt_rect(&o.bb)));
+    if transparent {
+        ctx.expect(o.mu.is_empty() && o.px.is_empty(), &format!("C02:transparent-draws:{}", kind), || {
+            format!("{} px drawn, {} pixels() items with a transparent style", o.mu.len(), o.px.len())
+        });
+    }
+    // C07: translation commutes with drawing
+    let want: PMap = o.mu.iter().map(|((y, x), c)| ((y + dd.y, x + dd.x), *c)).collect();
+    let shifted = o.md == want;
+    ctx.expect(shifted, &format!("C07:draw-not-shifted:{}", kind), || {
+        let diff = o.md.iter().filter(|(k, v)| want.get(k) != Some(v)).count() + want.iter().filter(|(k, v)| o.md.get(k) != Some(v)).count();
+        format!("{} px vs {} px, {} differing entries", o.md.len(), want.len(), diff)
+    });
+    ctx.expect(o.mm == o.md && o.bbm == o.bbd, &format!("C07:translate-mut-differs:{}", kind), || "translate_mut and translate give different pictures / boxes".into());
+    if !o.bb.is_zero_sized() {
+        ctx.expect(o.bbd == Rectangle::new(o.bb.top_left + dd, o.bb.size), &format!("C07:bbox-not-shifted:{}", kind), || format!("{} -> {}", fmt_rect(&o.bb), fmt_rect(&o.bbd)));
+    } else {
+        ctx.expect(o.bbd.is_zero_sized(), &format!("C07:bbox-not-shifted:{}", kind), || format!("{} -> {}", fmt_rect(&o.bb), fmt_rect(&o.bbd)));
+    }
+    let px_text = fmt_px(&o.px);
+    let log_text = if o.log2.len() == 1 && o.log2[0] == Call::DrawIter(o.px.clone()) { "di:=px".to_string() } else { fmt_call_log(&o.log2) };
+    let m_text = {
+        let t = fmt_map(&o.m1);
+        if t == px_text {
+            "=px".to_string()
+        } else {
+            t
+        }
+    };
+    format!(
+        "bb={} log={} m={} r2eq={} px={} bbd={} sh={}",
+        fmt_rect(&o.bb),
+        log_text,
+        m_text,
+        (o.m1 == o.m2) as u8,
+        px_text,
+        fmt_rect(&o.bbd),
+        shifted as u8
+    )
+}
+
+/// 64-bit mix for the deterministic grid sampling (independent of the seeded Rng).
+fn mix(a: u64, b: u64, c: u64) -> u64 {
+    let mut h = a.wrapping_mul(0x9E37_79B9_7F4A_7C15) ^ b.wrapping_mul(0xC2B2_AE3D_27D4_EB4F) ^ c.wrapping_mul(0x1656_67B1_9E37_79F9);
+    h ^= h >> 29;
+    h = h.wrapping_mul(0xBF58_476D_1CE4_E5B9);
+    h ^= h >> 32;
+    h
+}
+
+/// Generator of the styled streams (pid in {C01, C02, C07}).
+fn generate_styled(pid: &str, tier: Tier, rng: &mut Rng, emit: &mut dyn FnMut(String)) {
+    let quick = tier == Tier::Quick;
+    let pidn: u64 = match pid {
+        "C01" => 1,
+        "C02" => 2,
+        _ => 7,
+    };
+    let unb: (i64, i64, i64, i64) = (-4096, -4096, 8192, 8192);
+    let offs: [(i64, i64); 6] = [(1, 0), (0, -1), (-7, -9), (5, 3), (-3, 4), (64, -33)];
+    let pos: [(i64, i64); 2] = [(-2, -1), (-37, 12)];
+    let sweeps: [i64; 17] = [-400, -360, -270, -180, -90, -45, -1, 0, 1, 30, 90, 135, 180, 270, 359, 360, 400];
+    let mut styles: Vec<String> = Vec::new();
+    for (f, s) in [("7", "-"), ("-", "9"), ("7", "9"), ("-", "-")] {
+        for w in [0u32, 1, 2, 3, 5] {
+            for a in 0..3 {
+                styles.push(format!("{} {} {} {}", f, s, w, a));
+            }
+        }
+    }
+    // target box / offset of one op, by property
+    let place = |h: u64, x: i64, y: i64, d: i64| -> ((i64, i64, i64, i64), (i64, i64)) {
+        match pid {
+            "C01" => {
+                let tb = match h % 5 {
+                    0 | 1 => unb,
+                    // a clipping box placed relative to the shape so that it really cuts it
+                    2 | 3 => (x + d / 3 - 1, y + d / 4, (d / 2 + 2).max(1), (d / 2 + 1).max(1)),
+                    _ => (x + 1, y + 1, 0, 4),
+                };
+                (tb, (0, 0))
+            }
+            "C02" => (unb, (0, 0)),
+            _ => (unb, offs[(h % offs.len() as u64) as usize]),
+        }
+    };
+    // exhaustive small scope, sampled: every (shape, style) pair of the grid is a candidate; a fixed
+    // fraction is kept (all of them in the thorough tier), position / box / offset rotate with the hash.
+    // Quick: a third of the pairs that can paint something, a ninth of those that cannot (diameter 0, no
+    // colour that the shape uses, arcs of width 0).
+    let mut i: u64 = 0;
+    for d in [0i64, 1, 2, 3, 5, 8, 13, 20] {
+        for s in (0..360).step_by(45) {
+            for w in sweeps {
+                i += 1;
+                for (j, st) in styles.iter().enumerate() {
+                    let style = parse_style_str(st);
+                    for (k, kind) in ["sarc", "ssector"].iter().enumerate() {
+                        let paints = d > 0
+                            && if k == 0 {
+                                style.stroke_color.is_some() && style.stroke_width > 0
+                            } else {
+                                style.fill_color.is_some() || (style.stroke_color.is_some() && style.stroke_width > 0)
+                            };
+                        let keep: u64 = if !quick {
+                            1
+                        } else if paints {
+                            3
+                        } else {
+                            9
+                        };
+                        let h = mix(i, j as u64, pidn * 2 + k as u64);
+                        if h % keep != 0 {
+                            continue;
+                        }
+                        let h = h / keep;
+                        let (x, y) = pos[(h % 2) as usize];
+                        let (tb, dd) = place(h / 2, x, y, d);
+                        emit(styled_op_line(kind, x, y, d, s * 1000, w * 1000, st, tb, dd));
+                    }
+                }
+            }
+        }
+    }
+    // the bevel limits (55 / 305 degrees) and the operation switches, fractional sweeps, wider strokes
+    for d in [9i64, 16] {
+        for s in [0i64, 30_000, 100_500, -45_000] {
+            for w in [
+                20_000i64, 54_000, 54_999, 55_000, 55_001, 56_000, 179_999, 180_000, 180_001, 304_999, 305_000, 305_001, 306_000, 340_000, 359_999, 360_000,
+                -20_000, -54_999, -55_000, -55_001, -179_999, -180_001, -304_999, -305_001, -340_000, -359_999, 499, -499,
+            ] {
+                for st in ["7 9 1 1", "7 9 3 0", "7 9 4 1", "7 9 2 2", "- 9 6 1", "7 - 3 1"] {
+                    let h = mix(d as u64 * 1000 + (s + 360_000) as u64, (w + 360_000) as u64, pidn);
+                    if quick && h % 3 != 0 {
+                        continue;
+                    }
+                    let (tb, dd) = place(h / 3, 3, -2, d);
+                    emit(styled_op_line("ssector", 3, -2, d, s, w, st, tb, dd));
+                    if h % 2 == 0 {
+                        emit(styled_op_line("sarc", 3, -2, d, s, w, st, tb, dd));
+                    }
+                }
+            }
+        }
+    }
+    // seeded random: fractional angles, any position, larger diameters and widths
+    let n = if quick { 500 } else { 8000 };
+    for k in 0..n {
+        let scale = *rng.pick(&[8i64, 64, 1024]);
+        let x = rng.range(-scale, scale);
+        let y = rng.range(-scale, scale);
+        let d = if quick { rng.range(0, 40) } else { rng.range(0, 100) };
+        let s = rng.range(-360_000, 720_000);
+        let w = match rng.below(8) {
+            0 => rng.range(-2_000, 2_000),
+            1 => *rng.pick(&[180_000i64, -180_000]) + rng.range(-1_500, 1_500),
+            2 => *rng.pick(&[360_000i64, -360_000]) + rng.range(-1_500, 1_500),
+            3 => *rng.pick(&[55_000i64, -55_000, 305_000, -305_000]) + rng.range(-1_500, 1_500),
+            _ => rng.range(-450_000, 450_000),
+        };
+        let width = match rng.below(5) {
+            0 => 0,
+            1 => 1,
+            2 => d + rng.range(0, 3),
+            _ => rng.range(0, if quick { 9 } else { 14 }),
+        };
+        let st = format!(
+            "{} {} {} {}",
+            if rng.chance(1, 2) { "7" } else { "-" },
+            if rng.chance(3, 4) { "9" } else { "-" },
+            width,
+            rng.below(3)
+        );
+        let (tb, dd) = match pid {
+            "C01" if rng.chance(1, 2) => ((x + rng.range(-3, d / 2), y + rng.range(-3, d / 2), rng.range(0, d + 4), rng.range(0, d + 4)), (0, 0)),
+            "C07" => (unb, (rng.range(-300, 300), rng.range(-300, 300))),
+            _ => (unb, (0, 0)),
+        };
+        emit(styled_op_line(if k % 2 == 0 { "ssector" } else { "sarc" }, x, y, d, s, w, &st, tb, dd));
+    }
+}
+
+fn styled_kind_counts(ctx: &mut Ctx, kind: &str, a: &Args, ps: (u8, [i32; 2], [i32; 2])) {
+    ctx.count(kind);
+    ctx.count(&format!(
+        "{}:{}",
+        kind,
+        match ps.0 {
+            0 => "intersection",
+            1 => "union",
+            _ => "entire-plane",
+        }
+    ));
+    ctx.count(&format!(
+        "{}:d{}",
+        kind,
+        match a.d {
+            0 => "=0",
+            1..=4 => "<=4",
+            5..=24 => "<=24",
+            _ => ">24",
+        }
+    ));
+    if ps != a.ps_op {
+        ctx.count(&format!("{}:op-line-plane-sector-stale", kind));
+    }
+}
+
 impl Module for M {
     fn name(&self) -> &'static str {
         "sector"
@@ -288,10 +664,20 @@ impl Module for M {
          {-400,-360,-270,-180,-135,-90,-45,-1,0,1,45,90,135,180,270,359,360,400} degrees x 2 positions, plus larger diameters \
          (31,64,127,128) on a coarser angle grid and seeded random fractional angles (milli-degrees) at random positions; thorough = \
          1-degree grids (all starts x 12 sweeps and all sweeps -400..=400 x 4 starts for d = 11, 40; reduced for d = 127, 128) and 5000 \
-         random fractional angle pairs with diameters up to 128. Non-trivial: diameter >= 1; distinct = distinct op text."
+         random fractional angle pairs with diameters up to 128. Non-trivial: diameter >= 1; distinct = distinct op text. \
+         sector.sarc / sector.ssector (C01, C02, C07): diameters {0,1,2,3,5,8,13,20} x start angles on a 45-degree grid x sweeps \
+         {-400,-360,-270,-180,-90,-45,-1,0,1,30,90,135,180,270,359,360,400} degrees x stroke widths {0,1,2,3,5} x 3 alignments x 4 colour \
+         options, quick = a hash-selected third of the pairs that can paint something and a ninth of the others (thorough = all) at 2 positions with rotating target boxes (C01: \
+         unbounded / clipping / empty) or offsets (C07), plus sweeps around the bevel limits (55 / 305 degrees) and operation switches \
+         (180 / 360 degrees) with wider strokes, plus seeded random fractional angles, positions, diameters (< 40; thorough < 100) and \
+         widths. Non-trivial: at least one pixel painted (C02: or a transparent style; C07: and a non-zero offset)."
     }
 
     fn generate(&self, pid: &str, tier: Tier, rng: &mut Rng, emit: &mut dyn FnMut(String)) {
+        if pid == "C01" || pid == "C02" || pid == "C07" {
+            generate_styled(pid, tier, rng, emit);
+            return;
+        }
         if pid != "C05" && pid != "C18" {
             return;
         }
@@ -480,6 +866,47 @@ impl Module for M {
                     angular_oracle(ctx, "arc", tl, d, a.start, a.sweep, ps, &ring, &pts);
                 }
                 format!("ps={} bb={} pts={}", fmt_ps(ps), fmt_rect(&bb), fmt_pts(pts))
+            }
+            "sector.sarc" => {
+                let a = parse_args(&mut t);
+                let style = parse_style(&mut t);
+                let tb = t.rect();
+                let dd = t.point();
+                let ps = hook(a.start, a.sweep);
+                styled_kind_counts(ctx, "sarc", &a, ps);
+                let o = observe_styled!(Arc::new(a.tl, a.d, mdeg(a.start), mdeg(a.sweep)), style, tb, dd);
+                format!("ps={} {}", fmt_ps(ps), styled_report(ctx, op, "sarc", &o, &style, tb, dd))
+            }
+            "sector.ssector" => {
+                let a = parse_args(&mut t);
+                let bv_op = (t.u32() as u8, [t.i32(), t.i32()]);
+                let style = parse_style(&mut t);
+                let tb = t.rect();
+                let dd = t.point();
+                let ps = hook(a.start, a.sweep);
+                let bv = bevel_hook(a.tl, a.d, a.start, a.sweep, &style);
+                styled_kind_counts(ctx, "ssector", &a, ps);
+                ctx.count(&format!(
+                    "ssector:bevel:{}",
+                    match bv.0 {
+                        0 => "none",
+                        1 => "interior",
+                        _ => "exterior",
+                    }
+                ));
+                if (bv.0, bv.1) != bv_op {
+                    ctx.count("ssector:op-line-bevel-stale");
+                }
+                let o = observe_styled!(Sector::new(a.tl, a.d, mdeg(a.start), mdeg(a.sweep)), style, tb, dd);
+                format!(
+                    "ps={} bv={},{},{},{} {}",
+                    fmt_ps(ps),
+                    bv.0,
+                    bv.1[0],
+                    bv.1[1],
+                    bv.2,
+                    styled_report(ctx, op, "ssector", &o, &style, tb, dd)
+                )
             }
             other => panic!("unknown op {}", other),
         }
